@@ -9,8 +9,8 @@ from ..common import C, NPROC, TMP, Nat, cli_map, run_coq_eval, txt, untxt
 
 IMPORTS = ["Base.Prelude", "Model.Regex", "Model.Ex", "Model.Obs"]
 
-ALPHABETS = [list("ab "), list("abc,"), list("aé b"), list("日本a "), list("xy_1"), list("aß:c")]
-WORDS = ["foo", "bar", "baz", "a", "ab", "", "x y", "héllo", "日本語", "a,b,c", "key: val", "  lead", "trail  ", "über", "1 2 3", "aaa", "abab"]
+ALPHABETS = [list("ab "), list("abc,"), list("aé b"), list("日本a "), list("xy_1"), list("aß:c"), list("a\\b ")]
+WORDS = ["foo", "bar", "baz", "a", "ab", "", "x y", "héllo", "日本語", "a,b,c", "key: val", "  lead", "trail  ", "über", "1 2 3", "aaa", "abab", "a\\b", "x\\", "\\\\"]
 REPS = ["", "X", "--", "é", "日本", "a b", "zz", "_", "1"]
 LIT_CHARS = list("abcxy1 ,:_") + ["é", "日", "ß"]
 
@@ -35,8 +35,13 @@ NULLABLE = [False]      # set when a generated pattern can match the empty strin
 # ---- regexes: (coq term, rust syntax, vim very-magic syntax) ------------------------------------
 def gen_atom(rng, chars):
     r = rng.random()
+    if "\\" in chars and r < 0.3:
+        # a literal backslash is written escaped, also when it is the last thing before the closing delimiter
+        return C("AChar", 92), "\\\\", "\\\\"
     if r < 0.7:
         c = rng.choice(chars)
+        if c == "\\":
+            return C("AChar", 92), "\\\\", "\\\\"
         return C("AChar", ord(c)), c, c
     if r < 0.8:
         return C("AAny"), ".", "."
@@ -52,7 +57,7 @@ def gen_atom(rng, chars):
 
 
 def gen_regex(rng, text):
-    chars = [c for c in sorted(set(text)) if c != "\n" and (c.isalnum() or c in " ,:_" or ord(c) > 127)] or ["a"]
+    chars = [c for c in sorted(set(text)) if c != "\n" and (c.isalnum() or c in " ,:_\\" or ord(c) > 127)] or ["a"]
     chars = chars + LIT_CHARS[:3]
     items, rust, vim = [], "", ""
     for _ in range(rng.choice([1, 1, 1, 2, 2, 3])):
@@ -214,6 +219,10 @@ CORPUS = [
     fixed("ab\ncd\nef\n", [C("ENormal", R(2, 3), C("NAppend", "z")), C("EDel", C("ROne_", C("ANum", Nat(1))))], ":2,3normal! Az<CR>:1d<CR>", ["silent! 2,3normal! Az", "silent! 1d"]),
     fixed("a\nb\nc\nd\n", [C("EYank", C("ROne_", C("ANum", Nat(2)))), C("EPut", C("Some", C("ANum", Nat(0))))], ":2y<CR>:0pu<CR>", ["silent! 2y", "silent! 0pu"]),
     fixed("a\nb", [C("EYank", R(1, 2)), C("EPut", C("Some", C("ANum", Nat(1))))], ":1,2y<CR>:1pu<CR>", ["silent! 1,2y", "silent! 1pu"]),
+    # lines put behind an unterminated last line, the register ending in empty lines
+    fixed("a\n\nb", [C("EYank", R(1, 2)), C("EPut", C("Some", C("ALast")))], ":1,2y<CR>:$pu<CR>", ["silent! 1,2y", "silent! $pu"]),
+    fixed("x\n\n\nb", [C("EYank", R(1, 3)), C("EPut", C("Some", C("ALast")))], ":1,3y<CR>:$pu<CR>", ["silent! 1,3y", "silent! $pu"]),
+    fixed("\n\nb", [C("EYank", R(1, 2)), C("EGoto", Nat(3)), C("EPut", None)], ":1,2y<CR>gg2j:pu<CR>", ["silent! 1,2y", "3", "silent! pu"]),
     fixed("a\nb\nc\nd\n", [C("EGoto", Nat(3)), C("EDel", C("ROne_", C("ANum", Nat(0))))], "gg2j:0d<CR>", ["3", "silent! 0d"]),
     fixed("a\nb\nc\n", [C("EDel", C("RTwo", C("AOff", True, Nat(2)), C("ALast")))], ":-2,$d<CR>", ["silent! -2,$d"]),
     fixed("a\nb\nc\n", [C("EDel", C("RTwo", C("AOff", True, Nat(1)), C("ANum", Nat(2))))], ":-1,2d<CR>", ["silent! -1,2d"]),
@@ -309,10 +318,12 @@ def run(chk, binary):
             continue
         o = out.decode("utf-8", "replace")
         # -m prints the whole buffer followed by one newline
-        ilines = lines_of(o[:-1] if o.endswith("\n") else o)
-        # an empty last line without terminator cannot be told from no line in the buffer text
-        same = ilines == mlines or (mlines and mlines[-1] == "" and not text.endswith("\n") and ilines == mlines[:-1])
-        if not same and ghost_line:
+        ibuf = o[:-1] if o.endswith("\n") else o
+        ilines = lines_of(ibuf)
+        # an empty last line without terminator cannot be told from no line in the buffer text - a text that ends in a
+        # line break (or is empty); a text that ends in a character has simply lost the line
+        same = ilines == mlines or (mlines and mlines[-1] == "" and not text.endswith("\n") and ilines == mlines[:-1] and (ibuf == "" or ibuf.endswith("\n")))
+        if not same and ghost_line and (ibuf == "" or ibuf.endswith("\n") or ilines != mlines[:-1]):
             chk.known("empty-unterminated-last-line", GHOST_WHAT)
             ghost_examples.append(dict(case, impl_lines=ilines))
         elif not same:
